@@ -16,6 +16,7 @@ Import ListNotations.
 
 Section Statement.
   Variable content_of : modid -> stamp -> content.
+  Variable view_of : modid -> stamp -> content.
   Variable imports : modid -> content -> opts -> list modid.
   Variable probes : modid -> content -> opts -> list modid.
   Variable analyze : list modid -> (modid -> content) -> opts -> (modid -> option ihash) -> modid -> result.
@@ -33,10 +34,10 @@ Section Statement.
   Definition warm_equals_cold_for_all_histories : Prop :=
     forall (h : list (FS * opts)) (fs : FS) (o : opts) (n' : nat),
       (forall fs' o', In (fs', o') h -> FSOK fs') -> FSOK fs ->
-      output fs (warm content_of imports probes analyze sccs_of reach sdo_of thash ign_of blocker
-                      (runs content_of imports probes analyze sccs_of reach sdo_of thash ign_of blocker empty_store 0 h)
+      output fs (warm content_of view_of imports probes analyze sccs_of reach sdo_of thash ign_of blocker
+                      (runs content_of view_of imports probes analyze sccs_of reach sdo_of thash ign_of blocker empty_store 0 h)
                       fs o (length h))
-      = output fs (cold content_of imports probes analyze sccs_of reach sdo_of thash ign_of blocker fs o n').
+      = output fs (cold content_of view_of imports probes analyze sccs_of reach sdo_of thash ign_of blocker fs o n').
 End Statement.
 
 (* the edits of the property text, as transitions between file-system states *)
